@@ -5,7 +5,7 @@
 (* with all standards known (vnacal_new(3), "Managing Measurement Error    *)
 (* and Tolerance").                                                        *)
 (*                                                                         *)
-(* A configuration is a record [ty, r, c, sn, st, grid, kind, vec, ud]:    *)
+(* A configuration is a record [ty, r, c, sn, st, grid, kind, vec, ud, sh]: *)
 (*   ty    error-term type;  r x c  calibration dimensions                 *)
 (*   sn    sigma_nf = 10^-sn  (2..6)                                       *)
 (*   st    sigma_tr = 10^-st  (1..5), 0 = sigma_tr_vector NULL             *)
@@ -13,7 +13,17 @@
 (*           "one"  one value for all frequencies (frequency_vector NULL)  *)
 (*           "cal"  one value per calibration frequency (vector NULL)      *)
 (*           "two"  own grid of two points                                 *)
-(*           "n"    own grid of four to six points                         *)
+(*           "n"    own grid of four or more points                        *)
+(*           "same" own grid with as many points as there are calibration  *)
+(*                  frequencies (three or more), at other positions        *)
+(*   sh    shape of the declared noise over the calibration band:          *)
+(*           "const" the same everywhere; "rise" noise floor rising and    *)
+(*           tracking falling; "cross" the same over almost two decades    *)
+(*           (tracking dominates at the low end, the floor at the high     *)
+(*           end); "step" two levels, floor and tracking opposite.  A      *)
+(*           shape other than "const" needs a band (two to five            *)
+(*           calibration frequencies) and a tracking vector; a single      *)
+(*           value can only be "const"; a line ("two", "same") cannot step *)
 (*   kind  what is done with it (below);  vec: which vector carries the    *)
 (*         contrast in the interpolation kinds ("nf" | "tr" | "-")         *)
 (*                                                                         *)
@@ -51,6 +61,12 @@
 (*          0.3 sigma (final declaration); rdacc: consistent -> accepted;   *)
 (*          rdrej: plus one standard off by 100 sigma -> EDOM.  A value     *)
 (*          surviving from the earlier declaration flips the verdict        *)
+(*   agree  metamorphic: the same noisy readings solved under two           *)
+(*          declarations that agree at one calibration frequency (not the   *)
+(*          first) and differ at all others (noise floor 30x larger, so     *)
+(*          another floor / tracking ratio, never tighter): each frequency   *)
+(*          is solved with the noise declared for it, so the error terms at *)
+(*          that frequency must be the same                                  *)
 (*   det    one port, short / open / match only: exactly as many equations *)
 (*          as error terms.  The data fit any error model exactly (there   *)
 (*          is no residual), so enabling the model must neither change the *)
@@ -70,8 +86,10 @@ EXTENDS Integers, FiniteSets
 
 Types  == {"T8", "U8", "TE10", "UE10", "T16", "U16", "UE14", "E12"}
 TTypes == {"T8", "TE10", "T16"}
-Grids  == {"one", "cal", "two", "n"}
-DetKinds  == {"exact", "iacc", "irej", "few", "det", "rdacc", "rdrej"}
+Grids  == {"one", "cal", "two", "n", "same"}
+Shapes == {"const", "rise", "cross", "step"}
+DetKinds  == {"exact", "iacc", "irej", "few", "det", "rdacc", "rdrej",
+              "agree"}
 Histories == {"trnull", "regrid", "offon"}
 RateKinds == {"noisy", "outlier"}
 
@@ -93,8 +111,18 @@ IsConfig(x) ==
     /\ x.ud # "-" => /\ x.ty \in {"UE14", "E12"}
                      /\ x.c = 2 /\ x.r \in {2, 3}
                      /\ x.kind \in {"exact", "noisy", "outlier"}
+                     /\ x.sh = "const" /\ x.grid # "same"
+    /\ x.sh \in Shapes
+    /\ x.grid = "one" => x.sh = "const"
+    /\ x.grid \in {"two", "same"} => x.sh # "step"
+    /\ x.sh # "const" => /\ x.st # 0
+                         /\ x.kind \in {"exact", "noisy", "outlier", "agree"}
+    /\ x.grid = "same" => x.kind \in {"exact", "noisy", "outlier", "iacc",
+                                      "agree"}
+    (* the second declaration of "agree" has a 30x larger noise floor      *)
+    /\ x.kind = "agree" => (x.sh # "const" /\ x.sn \in 4..6)
     /\ IF x.kind \in {"iacc", "irej"}
-       THEN /\ x.grid \in {"two", "n"}
+       THEN /\ x.grid \in {"two", "n", "same"}
             /\ x.vec \in {"nf", "tr"}
             (* the contrast of 100x must stay inside the stated ranges;    *)
             (* the tracking vector is tested where tracking dominates      *)
@@ -121,11 +149,18 @@ IsConfig(x) ==
             /\ x.vec = "trnull" => (x.kind = "rdrej" /\ x.st = 0)
        ELSE x.vec = "-"
 
+(* enumerated as two products so that TLC does not have to filter the full *)
+(* cross product of all fields                                             *)
 Configs ==
     {x \in [ty : Types, r : 1..3, c : 1..3, sn : 2..6, st : 0..5,
             grid : Grids, kind : DetKinds \cup RateKinds,
             vec : {"nf", "tr", "-"} \cup Histories,
-            ud : {"-", "c1", "c2"}] : IsConfig(x)}
+            ud : {"-", "c1", "c2"}, sh : {"const"}] : IsConfig(x)}
+    \cup
+    {x \in [ty : Types, r : 1..3, c : 1..3, sn : 2..6, st : 1..5,
+            grid : Grids \ {"one"},
+            kind : {"exact", "noisy", "outlier", "agree"}, vec : {"-"},
+            ud : {"-"}, sh : Shapes \ {"const"}] : IsConfig(x)}
 
 -----------------------------------------------------------------------------
 (* deterministic contract: what one scenario's outcome must be *)
@@ -140,6 +175,10 @@ ExactOK(o) ==
 
 AcceptedOK(o) == o.wret = 0
 RejectedEDOM(o) == o.wret = -1 /\ o.werr = "EDOM" /\ o.wcbn = 1 /\ o.wcat = "MATH"
+
+-----------------------------------------------------------------------------
+(* metamorphic contract of "agree": both solves succeed, terms agree *)
+AgreeOK(o) == o.wret = 0 /\ o.clr = 0 /\ o.same = 1
 
 -----------------------------------------------------------------------------
 (* rate contract: bounds with negligible false-alarm mass, applied per     *)
